@@ -107,7 +107,7 @@ CLAIMS = {
              "range in order and are at most grain long. Tie: real parallel_reduce runs (4 partitioners, 1-16 threads) are logged (body splits, body runs, joins, offer_work via the guarded hook) and replayed "
              "as ops of the model, which must accept all of them and end with the same body; real deterministic-reduce trees are compared with dsplit.",
         note="PARTIAL: parallel_scan and parallel_sort are covered by oracle runs only (exactly one final pass per element with the right prefix; sorted permutation around the 500/4000 thresholds, ties, "
-             "pre-sortedness probe covers every adjacent pair); no theorem about sum_node/final_sum or quick_sort_range::split_range. Cancellation of a reduction is not modelled. The log replayer (Python) is trusted.",
+             "pre-sortedness probe covers every adjacent pair; every one-inversion input at every position for several n, both directions, default arena and arenas of 2/3/8 slots comes out sorted); no theorem about sum_node/final_sum or quick_sort_range::split_range. Cancellation of a reduction is not modelled. The log replayer (Python) is trusted.",
         ref="4/C06"),
     "C10": dict(
         technique="Coq proof: sequential refinement of the hash table (hash & mask addressing, growth, lazy recursive rehashing) to a finite map, by an invariant on bucket placement along parent chains; "
@@ -127,8 +127,8 @@ CLAIMS = {
              "successfully inserted keys (a traversal meets each once). Proved for all 64-bit hashes and all power-of-two bucket counts: a bucket's dummy node precedes the value node of every hash of that bucket, "
              "a bucket's dummy follows its parent's, and searching from such a dummy equals searching the whole list. Tie: sequential runs of the real unordered set / multiset (hash(k)=k) compared with the "
              "model result by result and node by node (order keys, dummy nodes, bucket count). Concurrency: unordered set/multiset and concurrent_set/multiset run under the atomic-access gate with a one-winner / "
-             "contents / count / traversal oracle, and with real threads; the skip list's level structure is checked white-box after sequential inserts.",
-        note="PARTIAL: the lock-free insertion protocol (CAS retry) is explored, not proved; the skip list (concurrent_map/set) has no Coq model — structure and concurrency oracles only; unsafe_erase, merge, "
+             "contents / count / traversal oracle, and with real threads; the skip list's level structure is checked white-box after sequential inserts. Ordered containers (SkipModel: the lock-free skip list of concurrent_set/map at the granularity of single accesses to my_max_height and next(level)): proved for ANY number of threads, scripts, node heights and interleavings - the level-0 chain is strictly increasing (no two equivalent keys, comparator order), every upper chain is ordered and a sub-chain of the one below (skip_list_unique_and_ordered); per key, nodes present = initial + successful inserts <= 1 and = 1 once any insert of it returned (skip_list_one_winner_per_key); a find that reports a key found it, a find started after an insert of the key returned reports it (skip_list_find_is_truthful, skip_list_returned_insert_is_visible). Tie skip-gate: the real concurrent_skip_list with scripted node heights and numbered nodes runs under the gate; the sequence of ALL accesses to my_max_height / next pointers (kind, observed value, written value, CAS outcome), the results and the final chain of every level equal the model's.",
+        note="PARTIAL: the lock-free insertion protocol (CAS retry) is explored, not proved; the skip-list model covers unique keys (multiset/multimap index numbers are oracle-only) and SC only; the unordered containers' CAS protocol has no step-level model; unsafe_erase, merge, "
              "rehash/reserve and multimap ordering of equal keys are outside the model's theorems (multi containers are tied but only the unique container is proved).",
         ref="4/C12"),
     "C15": dict(
@@ -154,7 +154,7 @@ CLAIMS = {
              "Push/pull edge protocol of a limited REJECTING node behind a buffering sender (PullModel: rejection, register_predecessor arriving at any later moment, forwarder_busy / forwarder task, pull at body completion, flip back to push): "
              "proved for every operation sequence (rejected_message_is_not_stranded): limit, started ++ waiting = put in order, forwarder_busy set exactly while a forwarder exists, a message waits only while a registration, a running body or a forwarder is still bound to act, idle => everything started; "
              "tie fnode-pull: settled white-box states (my_concurrency, queue size, predecessor registered, forwarder_busy, started) after every put / body release.",
-        note="PARTIAL: only function_input_base is modelled. Successor caches / broadcast fan-out, input_node, multifunction/continue/async nodes, reserve_wait, cancellation and exceptions in a graph are "
+        note="PARTIAL: only function_input_base is modelled. Successor caches / broadcast fan-out, input_node, multifunction/continue/async nodes, reserve_wait, cancellation and exceptions in a graph, and the re-offering of kept messages on late / repeated successor registration (latedge: input_node, buffering nodes) are "
              "covered by real-thread oracle runs only (limit, exactly-once per node, once per successor, idle at wait_for_all); the sender of the pull protocol is abstracted to a FIFO buffer (queue_node); its own forwarding task and the window between a failed try_get and the re-registration as successor are not modelled.",
         ref="4/C14"),
     "C02": dict(
